@@ -62,6 +62,8 @@ class Interp(object):
         if isinstance(v, DictV):
             if v.abstract is not None:
                 return v.abstract.nonempty(self)
+            if v.sym_items:
+                return True
             conds = [p for (_, p) in v.entries.values()]
             if any(p is True for p in conds):
                 return True
@@ -349,6 +351,11 @@ class Interp(object):
                 ca = v.cls.find_attr(attr)
                 if ca is not None:
                     c, expr = ca
+                    pr = self.property_parts(c, expr)
+                    if pr is not None:
+                        if pr[0] is None:
+                            raise PyRaise("AttributeError", "unreadable attribute " + attr)
+                        return self.call_function(pr[0], [v], {})
                     return self.class_attr_value(c, attr, expr)
                 ga = v.cls.find_method("__getattr__")
                 if ga is not None:
@@ -629,8 +636,31 @@ class Interp(object):
         else:
             raise OutOfReach("assignment target %s" % type(target).__name__)
 
+    def property_parts(self, cls, expr):
+        """(getter, setter) FunctionInfos for a class attribute defined as `property(getter[, setter])`"""
+        if isinstance(expr, ast.Call) and isinstance(expr.func, ast.Name) and expr.func.id == "property":
+            out = []
+            for a in list(expr.args[:2]) + [None] * (2 - len(expr.args[:2])):
+                if isinstance(a, ast.Name):
+                    out.append(cls.find_method(a.id))
+                elif a is None or (isinstance(a, ast.Constant) and a.value is None):
+                    out.append(None)
+                else:
+                    raise OutOfReach("property() with a non-name accessor")
+            return out
+        return None
+
     def setattr(self, obj, attr, v):
         if isinstance(obj, Obj):
+            if isinstance(obj.cls, ClassInfo) and attr not in obj.fields:
+                ca = obj.cls.find_attr(attr)
+                if ca is not None:
+                    pr = self.property_parts(ca[0], ca[1])
+                    if pr is not None:
+                        if pr[1] is None:
+                            raise PyRaise("AttributeError", "can't set attribute " + attr)
+                        self.call_function(pr[1], [obj, v], {})
+                        return
             obj.fields[attr] = v
             return
         raise OutOfReach("attribute store on %r" % (obj,))
